@@ -21,3 +21,31 @@ fn version_negotiation_size_gate(payload_len: usize) -> (ret: Result<(), Error>)
 //@ splice-item quic/s2n-quic-transport/src/endpoint/version.rs "if payload_len" autoconst=1
     Ok(())
 }
+
+// ---- which packets can reach the Version Negotiation transmission code at all ------------------------------------------
+// the `let packet = match packet { .. };` statement of Negotiator::on_packet, extracted verbatim: control falls through to
+// the size gate / queueing code only for an INITIAL packet whose version is not supported -- never for a Version
+// Negotiation packet ("never in reply to Version Negotiation", RFC 9000 6.1), a 0-RTT packet (dropped with Err) or any other
+// packet type (forwarded with Ok).  `is_supported!(packet, publisher)` (a macro over SUPPORTED_VERSIONS) is an
+// uninterpreted predicate of the packet here.
+pub struct VersionedPacketX { pub version: u32 }
+pub enum ProtectedPacket { Initial(VersionedPacketX), ZeroRtt(VersionedPacketX), VersionNegotiation(VersionedPacketX), Handshake(VersionedPacketX), Retry(VersionedPacketX), Short(u8) }
+pub struct PubX { pub dummy: u8 }
+pub uninterp spec fn supported(v: u32) -> bool;
+#[verifier::external_body]
+fn is_supported(packet: &VersionedPacketX, publisher: &mut PubX) -> (r: bool) ensures r == supported(packet.version) { unimplemented!() }
+
+pub struct NegotiatorX { pub reached_vn_code: Ghost<bool> }
+impl NegotiatorX {
+    fn on_packet_type_gate(&mut self, packet: &ProtectedPacket, publisher: &mut PubX) -> (ret: Result<(), Error>)
+        requires !old(self).reached_vn_code@,
+        ensures
+            final(self).reached_vn_code@ <==> (packet is Initial && !supported(packet->Initial_0.version)),
+            packet is VersionNegotiation ==> ret is Ok && !final(self).reached_vn_code@,
+            packet is ZeroRtt && !supported(packet->ZeroRtt_0.version) ==> ret is Err,
+    {
+//@ splice-stmts quic/s2n-quic-transport/src/endpoint/version.rs "Negotiator<Config>" on_packet "from=let packet = match packet" "subst=is_supported!(packet, publisher)=>is_supported(packet, publisher)"
+        proof { self.reached_vn_code = Ghost(true); }
+        Ok(())
+    }
+}
